@@ -13,6 +13,13 @@
 (* For every event: the outcome is a record or an error, never a panic; in  *)
 (* a record every number is finite and the track lies in [0, 360).          *)
 (*                                                                          *)
+(* Decoding is a function of (bytes, time, reference): an event that        *)
+(* carries `first` is the second call with an input already decoded earlier *)
+(* in the same run (other calls in between); both calls must have returned  *)
+(* the same thing.  Twin pairs of Gen_Flarm (same SeedOf, other key table)  *)
+(* are decoded one right after the other and judged by the round-trip       *)
+(* clauses like every other packet.                                         *)
+(*                                                                          *)
 (* A rejected event is printed with the set of clauses it violates.         *)
 EXTENDS Flarm, TraceBase
 
@@ -28,6 +35,7 @@ Clauses(ev) ==
     \cup (IF ev.e = "rt" THEN {"binding", "decodes"} ELSE {})
     \cup (IF ev.out = "ok" THEN RecordClauses ELSE {})
     \cup (IF ev.e = "rt" /\ ev.out = "ok" THEN RoundTripClauses ELSE {})
+    \cup (IF "first" \in DOMAIN ev THEN {"deterministic"} ELSE {})
 
 Holds(c, ev) ==
   LET r == ev.r  p == ev.p IN
@@ -37,6 +45,7 @@ Holds(c, ev) ==
                         /\ Decodable(p.lat, p.lon, p.reflat, p.reflon)
                         /\ ev.pkt = Packet(p)
     [] c = "decodes" -> ev.out = "ok"
+    [] c = "deterministic" -> ev.first.out = ev.out /\ ev.first.r = r
     [] c = "finite" ->
          /\ \A x \in {r.lat, r.lon, r.vs, r.gs, r.track, r.alt, r.gps, r.mult} : Finite(x)
          /\ \A i \in DOMAIN r.ns : Finite(r.ns[i])
